@@ -71,6 +71,11 @@ func altKey(i *absint.Iface) string {
 			return n + ":" + op
 		}
 	}
+	if st, ok := i.V.(*absint.Struct); ok && n == "List" && len(st.F) == 1 {
+		if sl, ok := st.F[0].(*absint.Slice); ok {
+			return fmt.Sprintf("List:%d", min(sl.Len, 3))
+		}
+	}
 	return n
 }
 
